@@ -1,5 +1,6 @@
 import WacModel.EncProto
 import WacModel.Spec.EncodeWF
+import WacModel.Spec.WiringMatch
 /-
   Driver for C02.  Case kind:
     enc <gen> <define 0|1> <graph> <real toposort> <result>
@@ -7,8 +8,9 @@ import WacModel.Spec.EncodeWF
            | `err merge name first second` | `err validation` | `panic` | `unreadable`.
 
   SPEC  (implementation vs specification): the wiring read from the real bytes, in canonical
-        form, must equal the wiring the dumped graph designates (`Spec.specWiring`), for the
-        emission order the real toposort reports.
+        form, must equal the wiring the dumped graph designates (`Spec.specWiring`) for some
+        emission order of the non-import nodes (tried: the order the real toposort reports, then
+        the order found by matching the instantiate items to instantiation nodes).
   MODEL (implementation vs model): the real toposort must equal the model's; the model
         skeleton's wiring must equal the real one item for item (imports are C03's); error
         variants and the ids they carry must agree (merge conflicts raised for *type* reasons
@@ -80,14 +82,7 @@ def collapseTerm (m : List (Str × Str)) : Term → Term
   | t => t
 
 /-- identify every explicit import of a named interface with the import of that interface -/
-def collapseIface (g : GraphVal) (w : Wiring) : Wiring :=
-  let m := ifaceImports g
-  let c := collapseTerm m
-  { w with
-    insts := w.insts.map fun i => { comp := c i.comp, args := i.args.map fun (n, k, t) => (n, k, c t) },
-    aliases := w.aliases.map fun (t, k, n) => (c t, k, n),
-    exports := w.exports.map fun (n, k, t) => (n, k, c t),
-    names := w.names.map fun (k, t, n) => (k, c t, n) }
+def collapseIface (g : GraphVal) (w : Wiring) : Wiring := mapW (collapseTerm (ifaceImports g)) w
 
 def judgeEnc (define : Bool) (g : GraphVal) (topo : Except Nat (List Nat)) (r : RealRes) : String :=
   let o : Opts := { define := define }
@@ -95,15 +90,28 @@ def judgeEnc (define : Bool) (g : GraphVal) (topo : Except Nat (List Nat)) (r : 
   let spec : Option String :=
     match r, topo with
     | .ok w, .ok ord =>
-      let others := ord.filter fun id => !isImportNode g id
-      let sw := normW (specWiring g define others)
       let rw := normW w
+      -- the emission order: the one the real toposort reports; if the wiring is not the
+      -- designated one under it, any other order under which it is (the property does not
+      -- fix the order of independent nodes)
+      let others0 := ord.filter fun id => !isImportNode g id
+      let others :=
+        if normW (specWiring g define others0) == rw then others0
+        else match findOrder g (canon g) id define w with
+          | some o' => if normW (specWiring g define o') == rw then o' else others0
+          | none => others0
+      let sw := normW (specWiring g define others)
       if sw != rw then
         -- recognise the known shape "explicit import of a named interface realised by the
         -- import of that interface" so that it can be told apart from any other mis-wiring
         let cw := normW (collapseIface g w)
-        let cs := normW (collapseIface g (specWiring g define others))
-        if cw == cs then
+        let ct := collapseTerm (ifaceImports g)
+        let kf : Bool :=
+          normW (collapseIface g (specWiring g define others)) == cw ||
+          (match findOrder g (canon g) ct define w with
+           | some o' => normW (collapseIface g (specWiring g define o')) == cw
+           | none => false)
+        if kf then
           some ("KF-explicit-interface-import-merged: " ++ mergedImports g ++ " :: " ++ diffWiring rw sw "impl" "spec")
         else some ("wiring differs from the graph: " ++ diffWiring rw sw "impl" "spec")
       else none
